@@ -74,9 +74,12 @@ class Harness(LineProc):
 
     def run(self, req, timeout=20.0):
         a = self.run_once(req, timeout)
-        if a.get("outcome") == "timeout":
-            # a loaded machine must not look like a hang: only a request that also exceeds a much longer limit counts
+        if a.get("outcome") == "timeout" and getattr(self, "confirmed_hangs", 0) < 2:
+            # a loaded machine must not look like a hang: only a request that also exceeds a much longer limit counts.
+            # (after two confirmed hangs this run reports a violation anyway: later ones are not timed a second time)
             a = self.run_once(req, 120.0)
+            if a.get("outcome") == "timeout":
+                self.confirmed_hangs = getattr(self, "confirmed_hangs", 0) + 1
         return a
 
     def run_once(self, req, timeout):
